@@ -493,8 +493,10 @@ where
             })?;
 
         let use_charset_declared = match (self.charset_override, header.vr()) {
+            // always in the default character repertoire, as when encoding
+            (_, VR::DA) | (_, VR::DS) | (_, VR::DT) | (_, VR::IS) | (_, VR::TM) => false,
             (CharacterSetOverride::AnyVr, _) => true,
-            (_, VR::AE) | (_, VR::CS) | (_, VR::AS) | (_, VR::UR) => false,
+            (_, VR::AE) | (_, VR::CS) | (_, VR::AS) | (_, VR::UR) | (_, VR::UI) => false,
             _ => true,
         };
 
